@@ -518,6 +518,8 @@ PyObject* base_gemm(PyObject *self, PyObject *args, PyObject *kwrds)
   k = (transA == 'N') ? X_NCOLS(A) : X_NROWS(A);
   if (k != ((transB == 'N') ? X_NROWS(B) : X_NCOLS(B)))
     PY_ERR_TYPE("dimensions of A and B do not match");
+  if (X_NROWS(C) != m || X_NCOLS(C) != n)
+    PY_ERR_TYPE("dimensions of C do not match");
 
   if (m == 0 || n == 0) return Py_BuildValue("");
 
